@@ -1117,7 +1117,8 @@ def fromFunction(func, interface=None, imlevel=0, name=None):
     method.required = names[:nr]
     method.optional = opt
 
-    argno = na
+    # keyword-only names sit between the positional names and ``*args``
+    argno = na + getattr(code, 'co_kwonlyargcount', 0)
 
     # Determine the function's variable argument's name (i.e. *args)
     if code.co_flags & CO_VARARGS:
